@@ -123,6 +123,9 @@ class Exec(ExprMixin, AccessMixin, CallMixin, StmtMixin, SpecMixin, HeapMixin, O
               s.assume(self.eval_spec_merged(s, when, extra))
             for ename, eexpr in ens:
               s.assume(self.eval_spec_merged(s, eexpr, extra))
+            hook = con.hooks.get('on_raise')
+            if hook:
+              hook(self, s, env, exc)
             res = Raised(exc)
         finally:
           self.old_state = saved_old
@@ -150,6 +153,10 @@ class Exec(ExprMixin, AccessMixin, CallMixin, StmtMixin, SpecMixin, HeapMixin, O
   def make_exception(self, st, exc_name, exact=None):
     if exc_name in BUILTIN_EXC:
       e = self.alloc(st, 'exc:' + exc_name, exact=(exc_name not in ('Exception', 'BaseException') if exact is None else exact))
+      if not e.exact:
+        # user code never raises the framework's private exception classes (assumption listed in evidence)
+        for n in self.ctx.registry.private_exceptions:
+          st.axiom(st.classof(e.t) != self.class_by_name(n).uid)
       return e
     cls = self.class_by_name(exc_name)
     return self.alloc(st, cls, exact=True if exact is None else exact)
@@ -177,6 +184,7 @@ class Exec(ExprMixin, AccessMixin, CallMixin, StmtMixin, SpecMixin, HeapMixin, O
         else:
           s2.assume(c)
       s2.tags.update(s.tags)
+      self.lift_ghost(s2, s)
       out.append((s2, v))
     return out
 
@@ -340,7 +348,7 @@ class Exec(ExprMixin, AccessMixin, CallMixin, StmtMixin, SpecMixin, HeapMixin, O
     # object-specific patterns: only that object's slot may differ
     slots = {}
     for p in con.modifies_:
-      if p in ('list', 'dict', '*') or p.startswith('list(') or p.startswith('dict('):
+      if p in ('list', 'dict', '*', '*user') or p.startswith('list(') or p.startswith('dict('):
         continue
       head, field = p.rsplit('.', 1)
       if (head, field) in self.ctx.registry.fields:
